@@ -156,3 +156,13 @@ pub(crate) fn skip_space__contract(input: &str) -> &str {
     );
     &input[k..]
 }
+
+/// Stub for `std::mem::drop` (`#[kani::stub(std::mem::drop, ..)]`): leak instead of
+/// dropping.  Its only effect in the lexer obligations is inside std's
+/// `impl Drop for BTreeMap` (`drop(ptr::read(self).into_iter())`), i.e. the destructor
+/// of the `ExpectedTypeList` inside a dropped `LexErrorKind`, which CBMC explores for
+/// every discarded `Result<_, LexError>` because the niche-encoded tag is not folded.
+/// Dropping is not part of any postcondition; leaking cannot make an assertion pass.
+pub(crate) fn mem_drop__leak<T>(x: T) {
+    std::mem::forget(x)
+}
